@@ -88,6 +88,7 @@ extra = {"C08": "yes: downloads after an abandoned earlier transfer on the same 
          "R17C07": "yes: after an error the reply holds exactly one Content-Format value (the option is not repeatable), whatever the prepared reply carried under it",
          "R17C20": "caught at once, by a measure taken while the change was being written: the 'next use' that must reclaim is varied - a request or a pushed response on an unrelated key, a response with a Block2 option of its own, a message that gets no response, a key kept busy throughout",
          "R18C09": "yes: the 4.13 hint names block 0 (pinned), and the oversize request arrives on a key that has seen other things before (a block-wise fetch abandoned at a later block, an unfinished upload)",
+         "R20C19": "yes: the projection of a code is its byte plus its *form* (`Views!CodeForms`): the stored value is an enum, and besides the 256 values a byte decodes to the API can hold the catch-all method / status and a `Reserved` value with a named code's byte; both trait views must hand out the stored form, the getters report UnKnown for it, same-type copies (`direct02`/`direct03`) keep it, copies through a byte are canonical; `set_method(UnKnown)` / `set_status(UnKnown)` and hand-built `Reserved(b)` for all 256 b in the recorder",
          "R4C12": "yes: the two entry points of an exchange as separate steps with equal message ids on different endpoints (model MODE split, deferred responses in the mixed driver); a disturbed other key is reported under C12 in every branch",
          "C20": "yes: expiry under block-wise traffic on other keys (model `Other` now block-wise; driver scenario `expiry-traffic`)"}
 for d in sorted(glob.glob(os.path.join(ROOT, "seeded", "*", "meta.json"))):
